@@ -43,6 +43,11 @@ Orphans(r, d) == {x \in Range(M(CidOf(d)).children) :
 G2(r, d) == "child-orphan" \in KnownOpen => Orphans(r, d) = {}
 \* G4 (finding child-resurrect): deleting by digest a manifest that an index of the repository still lists
 G4(r, d) == "child-resurrect" \in KnownOpen => ~\E y \in DOMAIN man[r] \ {d} : d \in Range(M(CidOf(y)).children)
+\* G5 (finding gc-drops-response): a collection while some referrer could outlive the response that lists it
+RespSurelyKept(r, a) == \/ SubjectOf(a) \in MustMan(r)
+                        \/ (~Cfg.withSubj /\ ~Cfg.dangling)
+                        \/ (SubjectOf(a) \notin blob[r] /\ ~Cfg.dangling)
+G5(r) == "gc-drops-response" \in KnownOpen => \A a \in ManSet(r) : IsArt(a) => RespSurelyKept(r, a)
 \* G3: blobs of indexed manifests are not deleted through the blob API (index entry without content: outcome not pinned)
 G3(r, d) == d \notin DOMAIN man[r]
 
@@ -194,6 +199,11 @@ FamOps(f) ==
     [] f = "sessbad"  -> FSessBadReal
     [] f = "upget"    -> FUpGet
     [] f = "updel"    -> FUpDel
+    [] f = "gc"       -> {[op |-> "GC", repo |-> r] : r \in GR}
+    [] f = "age"      -> {[op |-> "Age", repo |-> r] : r \in GR}
+    [] f = "gcrefs"   -> {[op |-> "GC", repo |-> r] : r \in {x \in GR : G5(x)}}
+    [] f = "gcpass"   -> {[op |-> "GCPass"]}
+    [] f = "mkcorrupt" -> {[op |-> "MkCorrupt", repo |-> "raw:zzz/broken", which |-> w] : w \in {"corrupt", "phantom", "removed"}}
     [] OTHER -> {}
 
 Weights ==
@@ -204,6 +214,12 @@ Weights ==
     [] Profile = "manput" -> <<"pushblob", "pushblob", "manput", "manput", "manputbad", "manputbad", "manputbad",
                                "manputmiss", "manputmiss", "mandel", "blobdel">>
     [] Profile = "refs" -> <<"pushblob", "pushblob", "manput", "manput", "manput", "manput", "mandel", "mandel", "restart">>
+    [] Profile = "gc" -> <<"pushblob", "pushblob", "manput", "manput", "manput", "manput", "manput", "mandel", "mandel",
+                           "blobdel", "gc", "gc", "gc", "age", "age">>
+    [] Profile = "gcrefs" -> <<"pushblob", "pushblob", "manput", "manput", "manput", "manput", "manput", "mandel", "mandel",
+                               "gcrefs", "gcrefs", "age">>
+    [] Profile = "gcpass" -> <<"pushblob", "pushblob", "manput", "manput", "manput", "manput", "mandel", "blobdel",
+                               "gcpass", "gcpass", "age", "age", "mkcorrupt">>
     [] Profile = "sess" -> <<"uppost", "uppost", "uppatch", "uppatch", "uppatch", "upput", "upput", "sessbad", "sessbad",
                              "upget", "updel", "restart", "blobget">>
     [] Profile = "upload" -> <<"pushblob", "uppost", "uppost", "uppatch", "uppatch", "upput", "upput", "sessbad",
